@@ -1,11 +1,183 @@
-import HdModel.Lemmas.Eyeballs
-/-! # C10 — happy-eyeballs connect succeeds iff some candidate would; first success wins -/
+import HdModel.Lemmas.Eyeballs2
+/-! # C10 — happy-eyeballs connect succeeds iff some candidate would; first success wins
+
+Theorems about `Hd.Eyeballs.run` (mirror of `EyeballSet::finish`) for **every** list of scripted
+attempts (any length; latency finite or never; success or failure) and **every** configuration
+(stagger delay, overall timeout, initial concurrency – each absent, zero or finite). -/
 namespace Hd.Eyeballs
+
+/-- The state `run` finishes in, before the start trace is trimmed. -/
+def finalSt (c : Cfg) (atts : List Attempt) : St :=
+  (loop c atts (2 * atts.length + 2) (startN atts (c.conc.getD atts.length) (init atts.length))).2
+
+theorem startN_measure (atts : List Attempt) (k : Nat) (s : St) :
+    2 * (startN atts k s).queue.length + (startN atts k s).running.length ≤
+      2 * s.queue.length + s.running.length := by
+  induction k generalizing s with
+  | zero => simp [startN]
+  | succ k ih =>
+    unfold startN
+    split
+    · omega
+    · rename_i i q hq
+      refine Nat.le_trans (ih _) ?_
+      simp [start, hq]; omega
+
+theorem run_post2 (c : Cfg) (atts : List Attempt) :
+    Post2 c atts (run c atts).1 (finalSt c atts) := by
+  apply loop_post2 c atts atts.length
+  · exact inv1_startN _ (inv1_init c atts.length)
+  · exact inv2_startN _ (inv2_init atts atts.length)
+  · have := startN_measure atts (c.conc.getD atts.length) (init atts.length)
+    simp [init] at this ⊢; omega
+
+theorem run_starts (c : Cfg) (atts : List Attempt) :
+    (run c atts).2.starts = trimStarts atts (run c atts).1 (finalSt c atts).starts := rfl
+
+theorem finalSt_inv1 (c : Cfg) (atts : List Attempt) : Inv1 c atts.length (finalSt c atts) :=
+  (loop_inv1 c atts atts.length _ _ (inv1_startN _ (inv1_init c atts.length))).1
+
+/-- Trimming keeps the winner's own entry. -/
+theorem trim_keeps_winner {c : Cfg} {n : Nat} {s : St} (h1 : Inv1 c n s) (atts : List Attempt)
+    (j t : Nat) (st : Nat × Nat) (hst : st ∈ s.starts) (hj : st.1 = j) :
+    st ∈ trimStarts atts (.ok j t) s.starts := by
+  unfold trimStarts
+  simp only
+  split
+  · have hsplit := List.takeWhile_append_dropWhile (p := fun (x : Nat × Nat) => x.1 != j) (l := s.starts)
+    rw [← hsplit] at hst
+    rcases List.mem_append.mp hst with hin | hin
+    · have hall := List.all_takeWhile (p := fun (x : Nat × Nat) => x.1 != j) (l := s.starts)
+      have := List.all_eq_true.mp hall st hin
+      simp [hj] at this
+    · apply List.mem_append_right
+      cases hd : s.starts.dropWhile (fun x => x.1 != j) with
+      | nil => rw [hd] at hin; simp at hin
+      | cons x xs =>
+        have hx : ¬ (x.1 != j) = true := by
+          have := List.head?_dropWhile_not (fun (y : Nat × Nat) => y.1 != j) s.starts
+          rw [hd] at this
+          simpa using this
+        have hxm : x ∈ s.starts := by
+          have : x ∈ s.starts.dropWhile (fun x => x.1 != j) := by rw [hd]; simp
+          exact (List.dropWhile_sublist _).subset this
+        have : x = st := starts_inj h1 x hxm st (by rw [← hsplit]; exact hst) (by simp at hx; rw [hx, hj])
+        simp [this]
+  · exact hst
+
+/-- **C10 (first success wins).** If the result is the connection of attempt `j` at time `t`, then
+    `j` was started, it succeeded exactly then, no later than the deadline, and no attempt that
+    was started succeeded earlier. -/
+theorem C10_first_success (c : Cfg) (atts : List Attempt) (j t : Nat)
+    (h : (run c atts).1 = .ok j t) :
+    (∃ st ∈ (run c atts).2.starts, st.1 = j ∧ succeedsAt atts st = some t) ∧
+    (∀ st ∈ (run c atts).2.starts, ∀ u, succeedsAt atts st = some u → t ≤ u) ∧
+    (∀ d, c.timeout = some d → t ≤ d) := by
+  have hp := run_post2 c atts
+  rw [h] at hp
+  obtain ⟨⟨st, hst, hj, hs⟩, hall⟩ := hp
+  refine ⟨⟨st, ?_, hj, hs⟩, ?_, ?_⟩
+  · rw [run_starts, h]; exact trim_keeps_winner (finalSt_inv1 c atts) atts j t st hst hj
+  · intro st' hst' u hu
+    rw [run_starts] at hst'
+    exact hall st' ((trimStarts_sub _ _ _) hst') u hu
+  · intro d hd
+    have hres := (loop_inv1 c atts atts.length (2 * atts.length + 2)
+      (startN atts (c.conc.getD atts.length) (init atts.length))
+      (inv1_startN _ (inv1_init c atts.length))).2.1
+    have h' : (loop c atts (2 * atts.length + 2)
+        (startN atts (c.conc.getD atts.length) (init atts.length))).1 = .ok j t := h
+    exact hres t d (by rw [h']; rfl) hd
+where
+  trimStarts_sub (atts : List Attempt) (r : Result) (l : List (Nat × Nat)) :
+      ∀ {x}, x ∈ trimStarts atts r l → x ∈ l := by
+    intro x hx
+    unfold trimStarts at hx
+    split at hx
+    · split at hx
+      · rename_i j _ _
+        rcases List.mem_append.mp hx with h | h
+        · exact (List.takeWhile_sublist _).subset h
+        · exact (List.dropWhile_sublist _).subset ((List.take_sublist _ _).subset h)
+      · exact hx
+    · exact hx
+
+/-- **C10 (failure only after every candidate failed; first failure reported).** -/
+theorem C10_err_only_when_all_failed (c : Cfg) (atts : List Attempt) (i t : Nat)
+    (h : (run c atts).1 = .firstErr i t) :
+    (run c atts).2.starts.length = atts.length ∧
+    (∀ st ∈ (run c atts).2.starts, ∃ u, failsAt atts st = some u ∧ u ≤ t) ∧
+    (∃ st ∈ (run c atts).2.starts, st.1 = i ∧ ∃ u, failsAt atts st = some u ∧
+      ∀ st' ∈ (run c atts).2.starts, ∀ u', failsAt atts st' = some u' → u ≤ u') := by
+  have hp := run_post2 c atts
+  rw [h] at hp
+  obtain ⟨hq, hall, hfirst⟩ := hp
+  have hs : (run c atts).2.starts = (finalSt c atts).starts := by rw [run_starts, h]; rfl
+  rw [hs]
+  refine ⟨?_, hall, hfirst⟩
+  have := (finalSt_inv1 c atts).order
+  rw [hq, List.append_nil] at this
+  have := congrArg List.length this
+  simpa using this
+
+/-- **C10 (timeout only at the deadline, and not while a started candidate has accepted).** -/
+theorem C10_timeout (c : Cfg) (atts : List Attempt) (t : Nat) (h : (run c atts).1 = .timeout t) :
+    c.timeout = some t ∧ ∀ st ∈ (run c atts).2.starts, ∀ u, succeedsAt atts st = some u → t < u := by
+  have hp := run_post2 c atts
+  rw [h] at hp
+  have hs : (run c atts).2.starts = (finalSt c atts).starts := by rw [run_starts, h]; rfl
+  rw [hs]; exact hp
+
+/-- **C10 (succeeds whenever a started candidate accepts by the deadline).** -/
+theorem C10_succeeds_if_possible (c : Cfg) (atts : List Attempt) (st : Nat × Nat) (u : Nat)
+    (hst : st ∈ (finalSt c atts).starts) (hu : succeedsAt atts st = some u)
+    (hd : ∀ d, c.timeout = some d → u ≤ d) :
+    ∃ j t, (run c atts).1 = .ok j t ∧ t ≤ u := by
+  have hp := run_post2 c atts
+  cases hr : (run c atts).1 with
+  | ok j t =>
+    rw [hr] at hp
+    exact ⟨j, t, rfl, hp.2 st hst u hu⟩
+  | firstErr i t =>
+    rw [hr] at hp
+    obtain ⟨u', hf, _⟩ := hp.2.1 st hst
+    unfold succeedsAt at hu; unfold failsAt at hf
+    split at hu
+    · rename_i hok; rw [hok] at hf; simp at hf
+    · cases hu
+  | timeout t =>
+    rw [hr] at hp
+    have := hp.2 st hst u hu
+    have := hd t hp.1
+    omega
+  | noProgress t =>
+    rw [hr] at hp
+    rw [hp.1] at hst; simp at hst
+  | hang =>
+    rw [hr] at hp
+    exact absurd hu (hp.2 st hst u)
 
 /-- **C10 (no candidates).** With no candidates the operation fails immediately with `NoProgress`. -/
 theorem C10_no_candidates (c : Cfg) : (run c []).1 = .noProgress 0 := by
   cases h : c.conc with
   | none => simp [run, h, loop, startN, init]
   | some k => cases k <;> simp [run, h, loop, startN, init]
+
+/-- `NoProgress` is reported only when there were no candidates. -/
+theorem C10_no_progress_only_if_empty (c : Cfg) (atts : List Attempt) (t : Nat)
+    (h : (run c atts).1 = .noProgress t) : atts = [] ∧ t = 0 := by
+  have hp := run_post2 c atts
+  rw [h] at hp
+  obtain ⟨hs, hq, ht⟩ := hp
+  have := (finalSt_inv1 c atts).order
+  rw [hs, hq] at this
+  have := congrArg List.length this
+  simp at this
+  exact ⟨List.eq_nil_of_length_eq_zero this.symm, ht⟩
+
+/-- Non-vacuity: scenario L of DESIGN.md – four candidates, a failure pulls the third forward,
+    the third wins although the second is still running. -/
+example : (run ⟨some 10, some 100, some 2⟩
+    [⟨some 5, .err⟩, ⟨some 50, .ok⟩, ⟨some 1, .ok⟩, ⟨some 1, .ok⟩]).1 = .ok 2 6 := by decide
 
 end Hd.Eyeballs
